@@ -66,7 +66,11 @@ func DrawScenario(t *Tape, property string) (*Scenario, Config) {
 	}
 	sc.RolloutID = t.Next(3) == 1
 	// traffic routing
-	switch t.Pick(3, 2, 2, 2) {
+	switch t.Pick(3, 2, 2, 2, 1, 1) {
+	case 4:
+		sc.Traffic = "ingress-aliyun-alb"
+	case 5:
+		sc.Traffic = "custom-cm"
 	case 1:
 		sc.Traffic = "ingress-nginx"
 	case 2:
@@ -74,7 +78,11 @@ func DrawScenario(t *Tape, property string) (*Scenario, Config) {
 	case 3:
 		sc.Traffic = "istio"
 	}
+	if sc.Traffic == "gateway" {
+		sc.ForeignBackend = t.Next(3) == 1
+	}
 	if sc.Traffic != "" {
+		sc.HeaderRegex = t.Next(3) == 1
 		sc.GraceSec = []int{0, 1, 3, 5}[t.Next(4)]
 		partition := sc.Family != "deploy-canary"
 		for i := range sc.Steps {
@@ -141,7 +149,15 @@ func applyProfile(t *Tape, property string, sc *Scenario, cfg *Config) {
 		if sc.MaxSurge == "0" && sc.MaxUnav == "0" {
 			sc.MaxUnav = "1"
 		}
+	case "C09":
+		if t.Next(3) == 0 {
+			sc.Events = append(sc.Events, UserEvent{Kind: "shrink-plan-late"}, UserEvent{Kind: "delete-rollout-late"})
+		}
 	case "C02":
+		if t.Next(4) == 0 {
+			// pause in the narrow window after the last step completed
+			sc.Events = append(sc.Events, UserEvent{Kind: "pause", AtStep: len(sc.Steps), AtState: "Completed"}, UserEvent{Kind: "resume", After: "pause", Arg: 5 + t.Next(30)})
+		}
 		// more cursor manipulation: jumps (also before the BatchRelease exists), pauses, plan edits
 		if t.Next(2) == 1 {
 			st := stepStates[t.Next(3)]
@@ -151,17 +167,33 @@ func applyProfile(t *Tape, property string, sc *Scenario, cfg *Config) {
 		if t.Next(2) == 1 {
 			sc.Events = append([]UserEvent{{Kind: "edit-plan-current", AtStep: 1 + t.Next(len(sc.Steps)), AtState: stepStates[1+t.Next(5)], Arg: t.Next(1000)}}, sc.Events...)
 		}
-	case "C10", "C04":
+	case "C10", "C04", "C13", "C14", "C15", "C03":
+		force := map[string]string{"C13": "gateway", "C14": []string{"ingress-nginx", "ingress-aliyun-alb"}[t.Next(2)], "C15": []string{"istio", "custom-cm"}[t.Next(2)]}[property]
+		if force != "" && sc.Traffic != force {
+			sc.Traffic = ""
+		}
 		if sc.Traffic == "" {
 			sc.Traffic = []string{"ingress-nginx", "gateway", "istio"}[t.Next(3)]
+			if force != "" {
+				sc.Traffic = force
+			}
 			sc.GraceSec = []int{0, 1, 3, 5}[t.Next(4)]
 			for i := range sc.Steps {
 				if t.Next(3) != 0 && !(sc.Family != "deploy-canary" && pctOver(sc.Steps[i].Replicas, 50)) {
-					sc.Steps[i].Weight = 1 + t.Next(100)
+					if t.Next(3) == 0 {
+						sc.Steps[i].Header = "x-canary"
+					} else {
+						sc.Steps[i].Weight = 1 + t.Next(100)
+					}
 				}
 			}
 		}
-		if t.Next(2) == 1 {
+		if force != "" {
+			// step orders other than the plan's: jumps between traffic steps
+			if t.Next(2) == 1 {
+				sc.Events = append([]UserEvent{{Kind: "jump", AtStep: 1 + t.Next(len(sc.Steps)), AtState: stepStates[2+t.Next(4)], Arg: 1 + t.Next(len(sc.Steps))}}, sc.Events...)
+			}
+		} else if t.Next(2) == 1 {
 			k := []string{"release-v3", "rollback"}[t.Next(2)]
 			sc.Events = append([]UserEvent{{Kind: k, AtStep: 1 + t.Next(len(sc.Steps)), AtState: stepStates[t.Next(len(stepStates))]}}, sc.Events...)
 		}
@@ -171,6 +203,15 @@ func applyProfile(t *Tape, property string, sc *Scenario, cfg *Config) {
 			ev := UserEvent{Kind: kinds[t.Next(len(kinds))], AtStep: 1 + t.Next(len(sc.Steps)), AtState: stepStates[t.Next(len(stepStates))], Arg: 1 + t.Next(10)}
 			sc.Events = append(sc.Events, ev)
 		}
+	}
+	switch property {
+	case "C12", "C17", "C08":
+		cfg.PodFlap = []int{0, 20, 60}[t.Next(3)]
+		cfg.PodKill = []int{0, 10, 40}[t.Next(3)]
+		cfg.FaultsStopAt = 400 + t.Next(3000)
+	}
+	if property == "C17" && t.Next(3) == 0 {
+		sc.Events = append(sc.Events, UserEvent{Kind: "release-v3", AtStep: 1 + t.Next(len(sc.Steps)), AtState: stepStates[1+t.Next(5)]})
 	}
 	faulty := false
 	switch property {
